@@ -1,6 +1,8 @@
 import P2sh.Model.Ops
 import P2sh.Spec.Ops
 import P2sh.Proofs.IntLemmas
+import P2sh.Proofs.OpsLemmas
+import P2sh.Props.C06
 /-!
 # C09 — operators implement a consistent numeric and typing model
 
@@ -207,5 +209,472 @@ theorem rel_consistent_with_eq_int (a b : Int64) :
 /-- non-vacuity: concrete operands exercising a value, an error and a float case -/
 example : Agrees (binaryOp (.arith .mul) (.int 3037000500) (.int 3037000500))
     (Spec.intArith .mul 3037000500 3037000500) := int_arith .mul 3037000500 3037000500
+
+/-! # The full table (`binary_spec`, `unary_spec`) -/
+
+theorem agrees_err (m : String) : Agrees (.err m) .error := ⟨m, rfl⟩
+theorem agrees_ok_any (v : Val) : Agrees (.ok v) .any := fun _ h => OpRes.noConfusion h
+theorem agrees_err_any (m : String) : Agrees (.err m) .any := fun _ h => OpRes.noConfusion h
+theorem agrees_val (v : Val) : Agrees (.ok v) (.value v) := rfl
+
+/-! ## ordering through `cmpOf` -/
+
+theorem cmpOf_gt {α} [LT α] [DecidableRel (α := α) (· < ·)] [BEq α] [LawfulBEq α] (a b : α)
+    (h : b < a ↔ ¬ a < b ∧ a ≠ b) : (some (cmpOf a b) == some Ord3.gt) = decide (b < a) := by
+  have e1 : (some Ord3.lt == some Ord3.gt) = false := by decide
+  have e2 : (some Ord3.eq == some Ord3.gt) = false := by decide
+  unfold cmpOf
+  by_cases h1 : a < b
+  · have : ¬ b < a := fun h' => (h.mp h').1 h1
+    simp only [h1, this, if_true, e1, decide_false]
+  · by_cases h2 : a = b
+    · subst h2
+      simp only [h1, if_false, beq_self_eq_true, if_true, e2, decide_false]
+    · have : b < a := h.mpr ⟨h1, h2⟩
+      have h3 : (a == b) = false := by simpa using h2
+      simp [h1, h3, this]
+
+theorem cmpOf_ge {α} [LT α] [DecidableRel (α := α) (· < ·)] [BEq α] [LawfulBEq α] [DecidableEq α] (a b : α)
+    (h : b < a ↔ ¬ a < b ∧ a ≠ b) :
+    (some (cmpOf a b) == some Ord3.gt || some (cmpOf a b) == some Ord3.eq) = (decide (b < a) || decide (a = b)) := by
+  have e1 : (some Ord3.lt == some Ord3.gt) = false := by decide
+  have e2 : (some Ord3.eq == some Ord3.gt) = false := by decide
+  have e3 : (some Ord3.lt == some Ord3.eq) = false := by decide
+  unfold cmpOf
+  by_cases h1 : a < b
+  · have : ¬ b < a := fun h' => (h.mp h').1 h1
+    have h2 : a ≠ b := fun e => by subst e; exact this h1
+    simp only [h1, this, if_true, e1, e3, decide_false, h2, Bool.or_self]
+  · by_cases h2 : a = b
+    · subst h2
+      simp only [h1, if_false, beq_self_eq_true, if_true, e2, decide_false, decide_true, Bool.false_or]
+    · have : b < a := h.mpr ⟨h1, h2⟩
+      have h3 : (a == b) = false := by simpa using h2
+      simp [h1, h3, this]
+
+theorem i64_gt_iff (a b : Int64) : b < a ↔ ¬ a < b ∧ a ≠ b := by
+  simp only [Int64.lt_iff_toInt_lt, ne_eq, ← Int64.toInt_inj]; omega
+
+/-- `>=` on integers is the exact comparison -/
+theorem int_ge (a b : Int64) :
+    binaryOp .ge (.int a) (.int b) = .ok (.bool (decide (b.toInt < a.toInt) || decide (a.toInt = b.toInt))) := by
+  simp only [binaryOp, isNumKind, Bool.and_self, applyBin, Val.ge, Val.partialCmp]
+  rw [cmpOf_ge a b (i64_gt_iff a b)]
+  simp [Int64.lt_iff_toInt_lt, Int64.toInt_inj]
+
+example : binaryOp .ge (.int (-3)) (.int (-3)) = .ok (.bool true) := by
+  rw [int_ge]; exact congrArg (fun x => OpRes.ok (Val.bool x)) (by decide)
+
+/-! ## shifts and bitwise operators -/
+
+/-- shift amounts are taken modulo 64; `<<` is multiplication by the power of two modulo 2^64,
+`>>` the flooring (arithmetic) division -/
+theorem shift_mod64 (a b : Int64) :
+    bitwiseOp .shl (.int a) (.int b) = .ok (.int (Int64.ofInt (a.toInt * 2 ^ (b.toInt % 64).toNat))) ∧
+    bitwiseOp .shr (.int a) (.int b) = .ok (.int (Int64.ofInt (a.toInt / 2 ^ (b.toInt % 64).toNat))) := by
+  simp only [bitwiseOp, i64_shl, i64_shr, and_self]
+
+example : bitwiseOp .shl (.int 1) (.int 65) = .ok (.int 2) := by
+  rw [(shift_mod64 1 65).1]; exact congrArg (fun x => OpRes.ok (Val.int x)) (by decide)
+example : bitwiseOp .shr (.int (-9)) (.int (-63)) = .ok (.int (-5)) := by
+  rw [(shift_mod64 _ _).2]; exact congrArg (fun x => OpRes.ok (Val.int x)) (by decide)
+
+/-- the integer/integer row of the table -/
+theorem row_int_int (op : Operator) (a b : Int64) :
+    Agrees (execOperator op (.int a) (.int b)) (Spec.binary (specOp op) (.int a) (.int b)) := by
+  cases op
+  · exact int_arith .add a b
+  · exact int_arith .sub a b
+  · exact int_arith .mul a b
+  · exact int_arith .div a b
+  · exact int_arith .rem a b
+  · show OpRes.ok (.bool (a == b)) = .ok (.bool (decide (a.toInt = b.toInt))); rw [i64_beq]
+  · show OpRes.ok (.bool (!(a == b))) = .ok (.bool (!decide (a.toInt = b.toInt))); rw [i64_beq]
+  · show binaryOp .gt (.int a) (.int b) = _; rw [int_gt]
+  · show binaryOp .ge (.int a) (.int b) = _; rw [int_ge]
+  · exact agrees_val _
+  · exact agrees_val _
+  · exact agrees_val _
+  · show bitwiseOp .shl (.int a) (.int b) = _; rw [(shift_mod64 a b).1]; rfl
+  · show bitwiseOp .shr (.int a) (.int b) = _; rw [(shift_mod64 a b).2]; rfl
+
+/-! ## bytes: arithmetic modulo 2^8 -/
+
+/-- byte arithmetic is arithmetic on naturals reduced modulo 2^8 -/
+theorem byte_mod256 (op : ArithOp) (a b : UInt8) :
+    Agrees (binaryOp (.arith op) (.byte a) (.byte b))
+      (Spec.byteArith (match op with | .add => .add | .sub => .sub | .mul => .mul | .div => .div | .rem => .mod) a.toNat b.toNat) := by
+  have hz : (b == 0) = decide (b.toNat = 0) := by
+    by_cases h : b = 0
+    · subst h; decide
+    · have : b.toNat ≠ 0 := fun h' => h (UInt8.toNat_inj.mp (by simpa using h'))
+      simp [h, this]
+  cases op <;> simp only [binaryOp, isNumKind, Bool.and_self, Val.isZero, Spec.byteArith]
+  · simp [applyBin, arith, arithByte, Agrees, Spec.wrap8, u8_add a b]
+  · simp [applyBin, arith, arithByte, Agrees, Spec.wrap8, u8_sub a b]
+  · simp [applyBin, arith, arithByte, Agrees, Spec.wrap8, u8_mul a b]
+  · by_cases h : b.toNat = 0
+    · simp [h, hz, Agrees]
+    · simp [h, hz, Agrees, applyBin, arith, arithByte, Spec.wrap8, u8_div a b]
+  · by_cases h : b.toNat = 0
+    · simp [h, hz, Agrees]
+    · simp [h, hz, Agrees, applyBin, arith, arithByte, Spec.wrap8, u8_mod a b]
+
+example : binaryOp (.arith .sub) (.byte 3) (.byte 250) = .ok (.byte 9) := by
+  have := byte_mod256 .sub 3 250
+  simpa [Agrees, Spec.byteArith, Spec.wrap8] using this
+
+theorem row_byte_byte (op : Operator) (a b : UInt8) :
+    Agrees (execOperator op (.byte a) (.byte b)) (Spec.binary (specOp op) (.byte a) (.byte b)) := by
+  cases op
+  · exact byte_mod256 .add a b
+  · exact byte_mod256 .sub a b
+  · exact byte_mod256 .mul a b
+  · exact byte_mod256 .div a b
+  · exact byte_mod256 .rem a b
+  all_goals first | exact agrees_ok_any _ | exact agrees_err_any _
+
+/-! ## integer/byte mixes are integer operations on the byte's value -/
+
+theorem int_byte_is_int (op : ArithOp) (a : Int64) (b : UInt8) :
+    binaryOp (.arith op) (.int a) (.byte b) = binaryOp (.arith op) (.int a) (.int (byteToInt b)) ∧
+    binaryOp (.arith op) (.byte b) (.int a) = binaryOp (.arith op) (.int (byteToInt b)) (.int a) := by
+  have hz : (byteToInt b == 0) = (b == 0) := by
+    by_cases h : b = 0
+    · subst h; decide
+    · have : byteToInt b ≠ 0 := fun h' => h ((byteToInt_eq_zero b).mp h')
+      rw [beq_eq_false_iff_ne.mpr this, beq_eq_false_iff_ne.mpr h]
+  constructor <;> simp only [binaryOp, isNumKind, Bool.and_self, Val.isZero, hz, applyBin, arith] <;> rfl
+
+theorem int_byte_arith (op : ArithOp) (a : Int64) (b : UInt8) :
+    Agrees (binaryOp (.arith op) (.int a) (.byte b))
+      (Spec.intArith (match op with | .add => .add | .sub => .sub | .mul => .mul | .div => .div | .rem => .mod) a.toInt b.toNat) := by
+  rw [(int_byte_is_int op a b).1, ← byteToInt_toInt b]; exact int_arith op a (byteToInt b)
+
+theorem byte_int_arith (op : ArithOp) (a : UInt8) (b : Int64) :
+    Agrees (binaryOp (.arith op) (.byte a) (.int b))
+      (Spec.intArith (match op with | .add => .add | .sub => .sub | .mul => .mul | .div => .div | .rem => .mod) a.toNat b.toInt) := by
+  rw [(int_byte_is_int op b a).2, ← byteToInt_toInt a]; exact int_arith op (byteToInt a) b
+
+theorem row_int_byte (op : Operator) (a : Int64) (b : UInt8) :
+    Agrees (execOperator op (.int a) (.byte b)) (Spec.binary (specOp op) (.int a) (.byte b)) := by
+  cases op
+  · exact int_byte_arith .add a b
+  · exact int_byte_arith .sub a b
+  · exact int_byte_arith .mul a b
+  · exact int_byte_arith .div a b
+  · exact int_byte_arith .rem a b
+  all_goals first | exact agrees_ok_any _ | exact agrees_err _
+
+theorem row_byte_int (op : Operator) (a : UInt8) (b : Int64) :
+    Agrees (execOperator op (.byte a) (.int b)) (Spec.binary (specOp op) (.byte a) (.int b)) := by
+  cases op
+  · exact byte_int_arith .add a b
+  · exact byte_int_arith .sub a b
+  · exact byte_int_arith .mul a b
+  · exact byte_int_arith .div a b
+  · exact byte_int_arith .rem a b
+  all_goals first | exact agrees_ok_any _ | exact agrees_err _
+
+example : binaryOp (.arith .sub) (.byte 200) (.int 201) = .ok (.int (-1)) := by
+  have := row_byte_int .sub 200 201
+  simp only [execOperator, specOp, Spec.binary, Spec.isArith, if_true, Spec.intArith, Agrees, Spec.wrap64] at this
+  rw [this]; exact congrArg (fun x => OpRes.ok (Val.int x)) (by decide)
+
+/-! ## any float operand: the IEEE primitive on the converted operands
+
+`Float` has a logical model in Lean's core (`Float.Model`): `+ - * /`, `<`, `≤`, `==` and the
+conversion of a byte reduce to it, so the comparison rows are proved (`float_gt_model`,
+`float_ge_model`) and the arithmetic rows are the same primitive applied to the same operands.
+`Int64.toFloat` alone is an opaque constant of this Lean version. -/
+
+def arithSpecOp : ArithOp → Spec.Op
+  | .add => .add | .sub => .sub | .mul => .mul | .div => .div | .rem => .mod
+
+theorem float_arith_row (op : ArithOp) (l r : Val) (x y : Float)
+    (hl : isNumKind l = true) (hr : isNumKind r = true)
+    (ha : ∀ o, arith o l r = .ok (arithFloat o x y)) (hz : r.isZero = (y == 0.0)) :
+    Agrees (binaryOp (.arith op) l r) (Spec.floatArith (arithSpecOp op) x y) := by
+  cases op <;>
+    simp only [binaryOp, hl, hr, Bool.and_self, if_true, applyBin, ha, hz, arithSpecOp, Spec.floatArith, arithFloat]
+  · exact agrees_val _
+  · exact agrees_val _
+  · exact agrees_val _
+  · cases y == 0.0
+    · exact agrees_val _
+    · exact agrees_err _
+  · cases y == 0.0
+    · exact agrees_val _
+    · exact agrees_err _
+
+theorem float_rel_row (l r : Val) (x y : Float)
+    (hl : isNumKind l = true) (hr : isNumKind r = true) (hc : l.partialCmp r = cmpFloat x y) :
+    binaryOp .gt l r = .ok (.bool (decide (x > y))) ∧ binaryOp .ge l r = .ok (.bool (decide (x ≥ y))) := by
+  have e1 : (BinKind.gt == BinKind.arith ArithOp.div || BinKind.gt == BinKind.arith ArithOp.rem) = false := by decide
+  have e2 : (BinKind.ge == BinKind.arith ArithOp.div || BinKind.ge == BinKind.arith ArithOp.rem) = false := by decide
+  constructor
+  · simp only [binaryOp, hl, hr, Bool.and_self, if_true, e1, Bool.false_and, Bool.false_eq_true, if_false,
+      applyBin, Val.gt, hc, float_gt_model]
+  · simp only [binaryOp, hl, hr, Bool.and_self, if_true, e2, Bool.false_and, Bool.false_eq_true, if_false,
+      applyBin, Val.ge, hc, float_ge_model]
+
+theorem row_float_float (op : Operator) (a b : Float) :
+    Agrees (execOperator op (.float a) (.float b)) (Spec.binary (specOp op) (.float a) (.float b)) := by
+  cases op
+  · exact float_arith_row .add (.float a) (.float b) a b rfl rfl (fun _ => rfl) rfl
+  · exact float_arith_row .sub (.float a) (.float b) a b rfl rfl (fun _ => rfl) rfl
+  · exact float_arith_row .mul (.float a) (.float b) a b rfl rfl (fun _ => rfl) rfl
+  · exact float_arith_row .div (.float a) (.float b) a b rfl rfl (fun _ => rfl) rfl
+  · exact float_arith_row .rem (.float a) (.float b) a b rfl rfl (fun _ => rfl) rfl
+  · exact agrees_val _
+  · exact agrees_val _
+  · exact (float_rel_row (.float a) (.float b) a b rfl rfl rfl).1
+  · exact (float_rel_row (.float a) (.float b) a b rfl rfl rfl).2
+  all_goals exact agrees_err _
+
+theorem row_int_float (op : Operator) (a : Int64) (b : Float) :
+    Agrees (execOperator op (.int a) (.float b)) (Spec.binary (specOp op) (.int a) (.float b)) := by
+  cases op
+  · exact float_arith_row .add (.int a) (.float b) a.toFloat b rfl rfl (fun _ => rfl) rfl
+  · exact float_arith_row .sub (.int a) (.float b) a.toFloat b rfl rfl (fun _ => rfl) rfl
+  · exact float_arith_row .mul (.int a) (.float b) a.toFloat b rfl rfl (fun _ => rfl) rfl
+  · exact float_arith_row .div (.int a) (.float b) a.toFloat b rfl rfl (fun _ => rfl) rfl
+  · exact float_arith_row .rem (.int a) (.float b) a.toFloat b rfl rfl (fun _ => rfl) rfl
+  · exact agrees_val _
+  · exact agrees_val _
+  · exact (float_rel_row (.int a) (.float b) a.toFloat b rfl rfl rfl).1
+  · exact (float_rel_row (.int a) (.float b) a.toFloat b rfl rfl rfl).2
+  all_goals exact agrees_err _
+
+/-- `Int64.toFloat` is an opaque constant of this Lean version (it has no logical model, unlike
+every other `Float` primitive used here), so "the double of an integer is zero exactly when the
+integer is zero" cannot be derived; it is the one fact about the conversion that the rows
+`float / int` and `float % int` need (the VM tests the integer, the statement the converted
+operand). -/
+def ConvZeroExact (b : Int64) : Prop := (b == 0) = (b.toFloat == (0.0 : Float))
+
+theorem row_float_int (op : Operator) (a : Float) (b : Int64)
+    (hc : op = .div ∨ op = .mod → ConvZeroExact b) :
+    Agrees (execOperator op (.float a) (.int b)) (Spec.binary (specOp op) (.float a) (.int b)) := by
+  cases op
+  · exact agrees_val _
+  · exact agrees_val _
+  · exact agrees_val _
+  · exact float_arith_row .div (.float a) (.int b) a b.toFloat rfl rfl (fun _ => rfl) (hc (.inl rfl))
+  · exact float_arith_row .rem (.float a) (.int b) a b.toFloat rfl rfl (fun _ => rfl) (hc (.inr rfl))
+  · exact agrees_val _
+  · exact agrees_val _
+  · exact (float_rel_row (.float a) (.int b) a b.toFloat rfl rfl rfl).1
+  · exact (float_rel_row (.float a) (.int b) a b.toFloat rfl rfl rfl).2
+  all_goals exact agrees_err _
+
+theorem row_float_byte (op : Operator) (a : Float) (b : UInt8) :
+    Agrees (execOperator op (.float a) (.byte b)) (Spec.binary (specOp op) (.float a) (.byte b)) := by
+  cases op
+  · exact agrees_val _
+  · exact agrees_val _
+  · exact agrees_val _
+  · exact float_arith_row .div (.float a) (.byte b) a b.toFloat rfl rfl (fun _ => rfl) (u8_toFloat_zero b).symm
+  · exact float_arith_row .rem (.float a) (.byte b) a b.toFloat rfl rfl (fun _ => rfl) (u8_toFloat_zero b).symm
+  all_goals first | exact agrees_ok_any _ | exact agrees_err _
+
+theorem row_byte_float (op : Operator) (a : UInt8) (b : Float) :
+    Agrees (execOperator op (.byte a) (.float b)) (Spec.binary (specOp op) (.byte a) (.float b)) := by
+  cases op
+  · exact agrees_val _
+  · exact agrees_val _
+  · exact agrees_val _
+  · exact float_arith_row .div (.byte a) (.float b) a.toFloat b rfl rfl (fun _ => rfl) rfl
+  · exact float_arith_row .rem (.byte a) (.float b) a.toFloat b rfl rfl (fun _ => rfl) rfl
+  all_goals first | exact agrees_ok_any _ | exact agrees_err _
+
+/-- IEEE: `a ≥ b ∧ b ≥ a` exactly when `a == b` (false on both sides for NaN) -/
+theorem float_ge_ge_iff_beq (a b : Float) : (decide (a ≥ b) && decide (b ≥ a)) = (a == b) := by
+  have h1 := float_le_iff b a
+  have h2 := float_le_iff a b
+  have h3 := float_beq_iff a b
+  rw [fcmp_swap] at h1
+  show (decide (b ≤ a) && decide (a ≤ b)) = (a == b)
+  cases h : fcmp a b with
+  | none => simp_all
+  | some o => cases o <;> simp_all
+
+/-- on floats and on integer/float mixes (which compare as doubles): `a >= b ∧ b >= a ↔ a == b` -/
+theorem rel_consistent_with_eq_float (a b : Float) :
+    ((Val.float a).ge (.float b) && (Val.float b).ge (.float a)) = (Val.float a).eq (.float b) := by
+  simp only [Val.ge, Val.partialCmp, Val.eq, float_ge_model, float_ge_ge_iff_beq]
+
+theorem rel_consistent_with_eq_mixed (a : Int64) (b : Float) :
+    ((Val.int a).ge (.float b) && (Val.float b).ge (.int a)) = (Val.int a).eq (.float b) := by
+  simp only [Val.ge, Val.partialCmp, Val.eq, float_ge_model, float_ge_ge_iff_beq]
+
+example : ((Val.float (0.0 / 0.0)).ge (.float 1.5) && (Val.float 1.5).ge (.float (0.0 / 0.0))) =
+    (Val.float (0.0 / 0.0)).eq (.float 1.5) := rel_consistent_with_eq_float _ _
+
+/-! ## strings and chars: lexicographic comparison, concatenation, repetition -/
+
+theorem str_rel (a b : String) :
+    binaryOp .gt (.str a) (.str b) = .ok (.bool (decide (b < a))) ∧
+    binaryOp .ge (.str a) (.str b) = .ok (.bool (decide (b < a) || decide (a = b))) := by
+  constructor
+  · simp only [binaryOp, isNumKind, Bool.and_self, Bool.false_eq_true, if_false, applyBin, Val.gt, Val.partialCmp,
+      cmpOf_gt a b (string_gt_iff a b)]
+  · simp only [binaryOp, isNumKind, Bool.and_self, Bool.false_eq_true, if_false, applyBin, Val.ge, Val.partialCmp,
+      cmpOf_ge a b (string_gt_iff a b)]
+
+theorem char_rel (a b : Char) :
+    binaryOp .gt (.char a) (.char b) = .ok (.bool (decide (b < a))) ∧
+    binaryOp .ge (.char a) (.char b) = .ok (.bool (decide (b < a) || decide (a = b))) := by
+  constructor
+  · simp only [binaryOp, isNumKind, Bool.and_self, Bool.false_eq_true, if_false, applyBin, Val.gt, Val.partialCmp,
+      cmpOf_gt a b (char_gt_iff a b)]
+  · simp only [binaryOp, isNumKind, Bool.and_self, Bool.false_eq_true, if_false, applyBin, Val.ge, Val.partialCmp,
+      cmpOf_ge a b (char_gt_iff a b)]
+
+example : binaryOp .gt (.str "b") (.str "ab") = .ok (.bool true) := by
+  rw [(str_rel _ _).1]; exact congrArg (fun x => OpRes.ok (Val.bool x)) (by decide)
+
+theorem row_str_str (op : Operator) (a b : String) :
+    Agrees (execOperator op (.str a) (.str b)) (Spec.binary (specOp op) (.str a) (.str b)) := by
+  cases op
+  case greater => exact (str_rel a b).1
+  case greaterEq => exact (str_rel a b).2
+  all_goals first | exact agrees_err _ | exact agrees_val _
+
+theorem row_char_char (op : Operator) (a b : Char) :
+    Agrees (execOperator op (.char a) (.char b)) (Spec.binary (specOp op) (.char a) (.char b)) := by
+  cases op
+  case greater => exact (char_rel a b).1
+  case greaterEq => exact (char_rel a b).2
+  all_goals first | exact agrees_err _ | exact agrees_val _
+
+/-- `string * n`: an error for negative `n`, the `n`-fold repetition otherwise (the request
+beyond 16 MiB is the memory exclusion) -/
+theorem repeat_spec (s : String) (n : Int64) (hh : ¬ hugeRepeat (.arith .mul) (.str s) (.int n)) :
+    Agrees (binaryOp (.arith .mul) (.str s) (.int n)) (Spec.binary .mul (.str s) (.int n)) := by
+  have hlt : (n < 0) ↔ n.toInt < 0 := by
+    rw [Int64.lt_iff_toInt_lt]; exact Iff.rfl
+  simp only [binaryOp, isNumKind, beq_self_eq_true, if_true, Spec.binary, Int64.toNatClampNeg]
+  by_cases h1 : n < 0
+  · simp only [h1, hlt.mp h1, if_true]; exact agrees_err _
+  · have h1' : ¬ n.toInt < 0 := fun h => h1 (hlt.mpr h)
+    by_cases h2 : s.utf8ByteSize * n.toInt.toNat > 16777216
+    · exact absurd ⟨rfl, s, n, Or.inl ⟨rfl, rfl⟩, h1, h2⟩ hh
+    · simp only [h1, h1', h2, if_false, repeatStr_eq]
+      exact agrees_val _
+
+example : binaryOp (.arith .mul) (.str "ab") (.int 3) = .ok (.str "ababab") := by
+  have h : ¬ hugeRepeat (.arith .mul) (.str "ab") (.int 3) := by
+    rintro ⟨-, s, n, (⟨h1, h2⟩ | ⟨h1, -⟩), -, hb⟩
+    · cases h1; cases h2; revert hb; decide
+    · cases h1
+  exact (repeat_spec "ab" 3 h : Agrees _ (.value (.str "ababab")))
+
+theorem row_str_int (op : Operator) (s : String) (n : Int64)
+    (hh : op = .mul → ¬ hugeRepeat (.arith .mul) (.str s) (.int n)) :
+    Agrees (execOperator op (.str s) (.int n)) (Spec.binary (specOp op) (.str s) (.int n)) := by
+  cases op
+  case mul => exact repeat_spec s n (hh rfl)
+  all_goals first | exact agrees_err _ | exact agrees_ok_any _
+
+theorem row_int_str (op : Operator) (n : Int64) (s : String)
+    (hh : op = .mul → ¬ hugeRepeat (.arith .mul) (.int n) (.str s)) :
+    Agrees (execOperator op (.int n) (.str s)) (Spec.binary (specOp op) (.int n) (.str s)) := by
+  cases op
+  case mul => exact binaryOp_no_panic _ _ _ (hh rfl)
+  all_goals first | exact agrees_err _ | exact agrees_ok_any _
+
+/-! ## `==` / `!=` on arrays: element-wise, as far as the statements fix the elements' equality -/
+
+theorem array_eq_spec (i j : Nat) (xs ys : List Val) (b : Bool) (h : Spec.specEqList xs ys = some b) :
+    execOperator .equal (.arr i xs) (.arr j ys) = .ok (.bool b) ∧
+    execOperator .notEqual (.arr i xs) (.arr j ys) = .ok (.bool (!b)) := by
+  simp only [execOperator, Val.eq, specEqList_sound xs ys b h, and_self]
+
+example : execOperator .equal (.arr 1 [.int 1, .str "a", .arr 2 [.null]]) (.arr 3 [.int 1, .str "a", .arr 4 [.null]])
+    = .ok (.bool true) :=
+  (array_eq_spec _ _ _ _ true (by decide +kernel)).1
+
+theorem row_arr_arr (op : Operator) (i j : Nat) (xs ys : List Val) :
+    Agrees (execOperator op (.arr i xs) (.arr j ys)) (Spec.binary (specOp op) (.arr i xs) (.arr j ys)) := by
+  cases op
+  case equal =>
+    simp only [specOp, Spec.binary, Spec.numEq]
+    cases h : Spec.specEqList xs ys with
+    | none => exact agrees_ok_any _
+    | some b => exact (array_eq_spec i j xs ys b h).1
+  case notEqual =>
+    simp only [specOp, Spec.binary, Spec.numEq]
+    cases h : Spec.specEqList xs ys with
+    | none => exact agrees_ok_any _
+    | some b => exact (array_eq_spec i j xs ys b h).2
+  all_goals first | exact agrees_err _ | exact agrees_val _
+
+/-! ## the table -/
+
+/-- the one family of cells that is not derived: `float / int` and `float % int` at an integer whose
+conversion to a double is not "zero exactly when the integer is" (no such integer exists on
+IEEE hardware; `Int64.toFloat` is opaque to the kernel) -/
+def convZeroRow (op : Operator) (l r : Val) : Prop :=
+  (op = .div ∨ op = .mod) ∧ ∃ a b, l = .float a ∧ r = .int b ∧ ¬ ConvZeroExact b
+
+/-- **the table**: for every operator and every pair of operand values the VM's operator code (as
+modelled) yields the value the specification fixes, a runtime error where it demands one, and
+does not panic where it is silent.  Excluded: the repetition beyond 16 MiB (`hugeRepeat`, the
+memory exclusion of the property) and `convZeroRow` (see there).  The cells not named below are
+the combinations the statement calls runtime errors (and `==`/`!=` on them, left open). -/
+theorem binary_spec (op : Operator) (l r : Val)
+    (hh : op = .mul → ¬ hugeRepeat (.arith .mul) l r) (hc : ¬ convZeroRow op l r) :
+    Agrees (execOperator op l r) (Spec.binary (specOp op) l r) := by
+  cases l <;> cases r
+  case int.int a b => exact row_int_int op a b
+  case byte.byte a b => exact row_byte_byte op a b
+  case int.byte a b => exact row_int_byte op a b
+  case byte.int a b => exact row_byte_int op a b
+  case float.float a b => exact row_float_float op a b
+  case int.float a b => exact row_int_float op a b
+  case float.int a b =>
+    exact row_float_int op a b fun ho => Classical.byContradiction fun hn => hc ⟨ho, a, b, rfl, rfl, hn⟩
+  case float.byte a b => exact row_float_byte op a b
+  case byte.float a b => exact row_byte_float op a b
+  case str.str a b => exact row_str_str op a b
+  case char.char a b => exact row_char_char op a b
+  case str.int s n => exact row_str_int op s n hh
+  case int.str n s => exact row_int_str op n s hh
+  case arr.arr i xs j ys => exact row_arr_arr op i j xs ys
+  all_goals (cases op <;> first | exact agrees_err _ | exact agrees_ok_any _ | exact agrees_val _)
+
+/-! ## unary operators -/
+
+def execUnary : Spec.UnOp → Val → OpRes
+  | .minus => unaryMinus
+  | .bang => unaryBang
+  | .bnot => unaryNot
+
+/-- `-` negates integers modulo 2^64 and floats, `~` is `-x-1`, `!` follows the truthiness table;
+every other operand kind is a runtime error (bytes: unconstrained, no panic) -/
+theorem unary_spec (op : Spec.UnOp) (v : Val) : Agrees (execUnary op v) (Spec.unary op v) := by
+  cases op
+  case bang => show unaryBang v = _; rw [C06.bang_is_table]
+  case minus =>
+    cases v
+    case int a => exact neg_spec a
+    all_goals first | exact agrees_val _ | exact agrees_err _ | exact agrees_err_any _
+  case bnot =>
+    cases v
+    case int a => exact not_spec a
+    all_goals first | exact agrees_err _ | exact agrees_err_any _
+
+example : Agrees (unaryNot (.int Int64.maxValue)) (.value (.int Int64.minValue)) :=
+  unary_spec .bnot (.int Int64.maxValue)
+example : Agrees (unaryMinus (.str "x")) .error := unary_spec .minus (.str "x")
+
+/-- non-vacuity of the table: a wrapping shift, a byte/int mix, a float comparison, an error cell -/
+example : Agrees (execOperator .shl (.int 3) (.int 127)) (.value (.int Int64.minValue)) :=
+  binary_spec .shl (.int 3) (.int 127) (by intro h; cases h) (by rintro ⟨h | h, -⟩ <;> cases h)
+example : Agrees (execOperator .greater (.char 'a') (.int 1)) .error :=
+  binary_spec .greater (.char 'a') (.int 1) (by intro h; cases h) (by rintro ⟨h | h, -⟩ <;> cases h)
+example (x : Float) : Agrees (execOperator .greaterEq (.float x) (.int 7)) (.value (.bool (x ≥ (7 : Int64).toFloat))) :=
+  binary_spec .greaterEq (.float x) (.int 7) (by intro h; cases h) (by rintro ⟨h | h, -⟩ <;> cases h)
 
 end P2sh.Props.C09
